@@ -105,6 +105,43 @@ example :
     (snap s 4).isSome := by
   decide +kernel
 
+/-! ## Sharing that the code does on purpose (modelled as it is) and freshness of conversion results -/
+
+/-- `Array.GetValues()` / `GetValues(own unit)` hands out the INTERNAL container (no copy) and changes
+nothing: the caller and the Array share one list.  The frame theorems are what makes this harmless as long
+as only the library writes. -/
+theorem getValues_none_is_internal (db : Db) (s s' : St) (i q : Nat) (c : Ref) (out : Out)
+    (ho : s.objs[i]? = some (.array q c)) (h : exec db (.getValue i none) s = .ok (out, s')) :
+    out = .cont c true ∧ s' = s := by
+  have he : exec db (.getValue i none) = getValue db i none := rfl
+  rw [he] at h
+  unfold getValue at h
+  rw [bind_eval, getObj_of ho] at h
+  simp only [arrayValues, bind_eval] at h
+  unfold getQ at h
+  cases hq : s.quants[q]? with
+  | none => rw [hq] at h; cases h
+  | some o => rw [hq] at h; simp only [pure_eval] at h; cases h; exact ⟨rfl, rfl⟩
+
+/-- `FractionScalar.GetValue(unit)`: the FractionValue handed out is a NEW object (allocated after every
+cell of the state before the call), never the operand's -/
+theorem fractionValue_conversion_is_new (db : Db) (s s' : St) (i q : Nat) (v : Ref) (u : Sym) (out : Out)
+    (ho : s.objs[i]? = some (.fscalar q v)) (h : exec db (.getValue i (some u)) s = .ok (out, s')) :
+    ∃ r, out = .fval r false ∧ s.heap.length ≤ r := by
+  have he : exec db (.getValue i (some u)) = getValue db i (some u) := rfl
+  rw [he] at h
+  unfold getValue at h
+  rw [bind_eval, getObj_of ho] at h
+  simp only [bind_eval] at h
+  cases hc : convertFractionValue db v q u s with
+  | error e => rw [hc] at h; cases h
+  | ok p =>
+    obtain ⟨r, s1⟩ := p
+    rw [hc] at h
+    simp only [pure_eval] at h
+    cases h
+    exact ⟨r, rfl, (convertFractionValue_safe.run s r _ (Nat.le_refl _) hc).2⟩
+
 /-! ## Copies and pickles -/
 
 /-- `copy.copy(x)`, `copy.deepcopy(x)`, `x.Copy()` return `x` itself and change nothing -/
